@@ -157,8 +157,18 @@ def run(rep, facts, tier):
             # the bound is chosen by a scan over the inputs: they are read on the way to the cut (the choice itself is control
             # flow - `if some lexer still reads this source { keep = i + 1 }` - so the bound's expression need not name them)
             reads_in = [ev['bb'] for ev in awrite.field_events(fx, f, {'state::State': {'input'}}) if not ev['mut']]
-            live = any(w['bb'] in blocks_after(f, rb) for rb in reads_in) and \
-                any(isinstance(x, tuple) and x[0] == 'phi' for x in [zstrip(bound)] + list(expr_walk(bound)))
+            chosen = any(isinstance(x, tuple) and x[0] == 'phi' for x in [zstrip(bound)] + list(expr_walk(bound)))
+            if not chosen:
+                # ... or the choice is made by an iterator chain (`filter(|src| inputs.iter().any(..)).map(|(i, _)| i + 1).last()`): a
+                # closure in the bound's expression works on the lexers
+                for x in expr_walk(bound):
+                    if isinstance(x, tuple) and x and x[0] == 'closure':
+                        g = fx.fns.get(x[1] if len(x) > 1 and isinstance(x[1], str) else '')
+                        if g is not None and any('lex::Lex' in (g.local_ty(k) or '') for k in range(len(g.locals))):
+                            chosen = True
+                            if '.input' in expr_str(x, -12) or "'input'" in repr(x):
+                                reads_in = reads_in + [w['bb']]          # the closure captures State.input itself
+            live = any(w['bb'] in blocks_after(f, rb) or rb == w['bb'] for rb in reads_in) and chosen
             rep.add('C17.R2', 'C17.R2:%s:sources-cut-spares-live-inputs' % fn, live,
                     'the bound of the cut is computed from the inputs still being read' if live else
                     '%s cuts the source registry back to %s while the inputs stay: a source that is still being read (an `include` inside an enum) '
